@@ -137,3 +137,537 @@ Proof.
   rewrite (get_from_skip _ _ 8) by apply enc64_len. cbn [of_opt obind].
   rewrite be64_enc64 by assumption. destruct c; reflexivity.
 Qed.
+
+(* ---------- SingleSignature (looped layout) ---------- *)
+Lemma get_mid pre mid post a m : len pre = a -> len mid = m -> get (pre ++ mid ++ post) a (a + m) = Some mid.
+Proof.
+  intros Ha Hm. rewrite (get_skip pre _ a 0 m) by (try assumption; lia). apply get_app_l, Hm.
+Qed.
+Lemma get_mid' pre mid post a b : len pre = a -> b = a + len mid -> get (pre ++ mid ++ post) a b = Some mid.
+Proof. intros Ha ->. apply get_mid; [assumption|reflexivity]. Qed.
+Lemma flat_enc64_len l : len (flat_map enc64 l) = 8 * len l.
+Proof.
+  induction l as [|x r IH]; [reflexivity|]. cbn [flat_map]. rewrite len_app, IH, enc64_len.
+  unfold len. cbn [length]. lia.
+Qed.
+
+Definition u64s (l : list N) : Prop := Forall (fun x => x < U64) l.
+
+Lemma ss_loop_enc md pre post : len pre = 8 ->
+  forall todo fuel done acc,
+  u64s todo -> (length todo < fuel)%nat -> len (done ++ todo) < BOUND ->
+  ss_loop md fuel (pre ++ flat_map enc64 (done ++ todo) ++ post) (len done) (len (done ++ todo)) acc
+  = Val (rev acc ++ todo).
+Proof.
+  intros Hpre. induction todo as [|x t IH]; intros fuel done acc Hu Hf Hb.
+  - destruct fuel as [|f]; [cbn in Hf; lia|]. cbn [ss_loop]. rewrite app_nil_r.
+    rewrite N.ltb_irrefl. rewrite app_nil_r. reflexivity.
+  - destruct fuel as [|f]; [cbn in Hf; lia|]. cbn [ss_loop].
+    assert (Hlt : len done <? len (done ++ x :: t) = true).
+    { apply N.ltb_lt. rewrite len_app. unfold len. cbn [length]. lia. }
+    rewrite Hlt. rewrite BOUND_val in Hb. rewrite len_app in Hb.
+    assert (Hd : len done < 72057594037927936) by lia.
+    rewrite mmul_ok by (rewrite U64_val; lia). cbn [of_res obind].
+    rewrite !madd_ok by (rewrite U64_val; lia). cbn [of_res obind].
+    inversion Hu as [|? ? Hx Ht]; subst.
+    assert (G : get (pre ++ flat_map enc64 (done ++ x :: t) ++ post) (8 + len done * 8) (16 + len done * 8) = Some (enc64 x)).
+    { rewrite flat_map_app. cbn [flat_map]. rewrite <- !app_assoc.
+      rewrite (app_assoc pre). apply get_mid'.
+      - rewrite len_app, flat_enc64_len. lia.
+      - rewrite enc64_len. lia. }
+    rewrite G. cbn [of_opt obind]. rewrite be64_enc64 by assumption.
+    replace (done ++ x :: t) with ((done ++ [x]) ++ t) by (rewrite <- app_assoc; reflexivity).
+    replace (len done + 1) with (len (done ++ [x])) by (rewrite len_app; reflexivity).
+    rewrite IH.
+    + cbn [rev]. rewrite <- app_assoc. reflexivity.
+    + assumption.
+    + cbn [length] in Hf. lia.
+    + rewrite BOUND_val. rewrite !len_app in *. unfold len in *. cbn [length] in *. lia.
+Qed.
+
+Definition ssig_ok (V : oracle) (s : ssig) : Prop :=
+  u64s (ss_indexes s) /\ len (ss_indexes s) < BOUND /\ len (ss_sigma s) = 48 /\ V 0 (ss_sigma s) = true /\ ss_signer s < U64.
+
+Lemma ssig_roundtrip md V s : ssig_ok V s -> p_ssig_legacy md V (e_ssig s) = Val s.
+Proof.
+  intros [Hu [Hb [Hl [Hv Hs]]]]. unfold p_ssig_legacy, e_ssig.
+  set (idx := ss_indexes s) in *. set (sg := ss_sigma s) in *.
+  pose proof Hb as Hb'. rewrite BOUND_val in Hb'.
+  rewrite (get_app_l _ _ 8) by apply enc64_len. cbn [of_opt obind].
+  rewrite be64_enc64 by (rewrite U64_val; lia).
+  assert (Hlen : length (enc64 (len idx) ++ flat_map enc64 idx ++ sg ++ enc64 (ss_signer s)) = (8 + 8 * length idx + 48 + 8)%nat).
+  { rewrite !app_length. fold (length (enc64 (len idx))).
+    pose proof (enc64_len (len idx)) as E1. pose proof (enc64_len (ss_signer s)) as E2.
+    pose proof (flat_enc64_len idx) as E3. unfold len in *. lia. }
+  pose proof (ss_loop_enc md (enc64 (len idx)) (sg ++ enc64 (ss_signer s)) (enc64_len _) idx
+                (S (length (enc64 (len idx) ++ flat_map enc64 idx ++ sg ++ enc64 (ss_signer s)))) [] []) as L.
+  cbn [app rev] in L. change (len []) with 0 in L. rewrite L; [|assumption|rewrite Hlen; lia|assumption].
+  cbn [obind].
+  rewrite mmul_ok by (rewrite U64_val; lia). cbn [of_res obind].
+  rewrite madd_ok by (rewrite U64_val; lia). cbn [of_res obind].
+  rewrite madd_ok by (rewrite U64_val; lia). cbn [of_res obind].
+  assert (G1 : get (enc64 (len idx) ++ flat_map enc64 idx ++ sg ++ enc64 (ss_signer s)) (8 + len idx * 8) (8 + len idx * 8 + 48) = Some sg).
+  { rewrite (app_assoc (enc64 (len idx))). apply get_mid'.
+    - rewrite len_app, flat_enc64_len, enc64_len. lia.
+    - rewrite Hl. reflexivity. }
+  rewrite G1. cbn [of_opt obind].
+  unfold p_sig. rewrite (get_whole _ 48) by assumption. cbn [of_opt obind]. rewrite Hv. cbn [obind].
+  rewrite madd_ok by (rewrite U64_val; lia). cbn [of_res obind].
+  assert (G2 : get (enc64 (len idx) ++ flat_map enc64 idx ++ sg ++ enc64 (ss_signer s)) (8 + len idx * 8 + 48) (8 + len idx * 8 + 56) = Some (enc64 (ss_signer s))).
+  { rewrite (app_assoc (enc64 (len idx))). rewrite (app_assoc (enc64 (len idx) ++ flat_map enc64 idx)).
+    rewrite <- (app_nil_r (enc64 (ss_signer s))) at 1. apply get_mid'.
+    - rewrite !len_app, flat_enc64_len, enc64_len, Hl. lia.
+    - rewrite enc64_len. lia. }
+  rewrite G2. cbn [of_opt obind]. rewrite be64_enc64 by assumption.
+  subst idx sg. destruct s; reflexivity.
+Qed.
+
+(* ---------- MerkleBatchPath (two looped sections) ---------- *)
+Lemma cadd_ok a b : a + b < U64 -> cadd a b = Some (a + b).
+Proof. intros H. unfold cadd. apply N.ltb_lt in H. rewrite H. reflexivity. Qed.
+Lemma cmul_ok a b : a * b < U64 -> cmul a b = Some (a * b).
+Proof. intros H. unfold cmul. apply N.ltb_lt in H. rewrite H. reflexivity. Qed.
+
+Definition hashes (l : list bytes) : Prop := Forall (fun v => len v = 32) l.
+Lemma concat_hash_len l : hashes l -> len (concat l) = 32 * len l.
+Proof.
+  induction 1 as [|v r Hv Hr IH]; [reflexivity|]. cbn [concat]. rewrite len_app, IH, Hv.
+  unfold len. cbn [length]. lia.
+Qed.
+Lemma hashes_app a b : hashes a -> hashes b -> hashes (a ++ b).
+Proof. intros. apply Forall_app; split; assumption. Qed.
+
+Lemma bp_vals_enc pre post : len pre = 16 ->
+  forall todo fuel done acc,
+  hashes done -> hashes todo -> (length todo < fuel)%nat -> len (done ++ todo) < BOUND ->
+  bp_vals fuel (pre ++ concat (done ++ todo) ++ post) (len done) (len (done ++ todo)) acc
+  = Val (rev acc ++ todo).
+Proof.
+  intros Hpre. induction todo as [|x t IH]; intros fuel done acc Hd Hu Hf Hb.
+  - destruct fuel as [|f]; [cbn in Hf; lia|]. cbn [bp_vals]. rewrite app_nil_r.
+    rewrite N.ltb_irrefl. rewrite app_nil_r. reflexivity.
+  - destruct fuel as [|f]; [cbn in Hf; lia|]. cbn [bp_vals].
+    assert (Hlt : len done <? len (done ++ x :: t) = true).
+    { apply N.ltb_lt. rewrite len_app. unfold len. cbn [length]. lia. }
+    rewrite Hlt. rewrite BOUND_val in Hb. rewrite len_app in Hb.
+    assert (Hdn : len done < 72057594037927936) by lia.
+    unfold HASH, oand.
+    rewrite cmul_ok by (rewrite U64_val; lia). rewrite cadd_ok by (rewrite U64_val; lia). cbn [of_opt obind].
+    rewrite cadd_ok by (rewrite U64_val; lia). rewrite cmul_ok by (rewrite U64_val; lia).
+    rewrite cadd_ok by (rewrite U64_val; lia). cbn [of_opt obind].
+    inversion Hu as [|? ? Hx Ht]; subst.
+    assert (G : get (pre ++ concat (done ++ x :: t) ++ post) (len done * 32 + 16) ((len done + 1) * 32 + 16) = Some x).
+    { rewrite concat_app. cbn [concat]. rewrite <- !app_assoc.
+      rewrite (app_assoc pre). apply get_mid'.
+      - rewrite len_app, concat_hash_len by assumption. lia.
+      - rewrite Hx. lia. }
+    rewrite G. cbn [of_opt obind].
+    replace (done ++ x :: t) with ((done ++ [x]) ++ t) by (rewrite <- app_assoc; reflexivity).
+    replace (len done + 1) with (len (done ++ [x])) by (rewrite len_app; reflexivity).
+    rewrite IH.
+    + cbn [rev]. rewrite <- app_assoc. reflexivity.
+    + apply hashes_app; [assumption|]. constructor; [assumption|constructor].
+    + assumption.
+    + cbn [length] in Hf. lia.
+    + rewrite BOUND_val. rewrite !len_app in *. unfold len in *. cbn [length] in *. lia.
+Qed.
+
+Lemma bp_idx_enc pre post off : len pre = off -> off < BOUND * 64 ->
+  forall todo fuel done acc,
+  u64s todo -> (length todo < fuel)%nat -> len (done ++ todo) < BOUND ->
+  bp_idx fuel (pre ++ flat_map enc64 (done ++ todo) ++ post) off (len done) (len (done ++ todo)) acc
+  = Val (rev acc ++ todo).
+Proof.
+  intros Hpre Hoff. rewrite BOUND_val in Hoff. induction todo as [|x t IH]; intros fuel done acc Hu Hf Hb.
+  - destruct fuel as [|f]; [cbn in Hf; lia|]. cbn [bp_idx]. rewrite app_nil_r.
+    rewrite N.ltb_irrefl. rewrite app_nil_r. reflexivity.
+  - destruct fuel as [|f]; [cbn in Hf; lia|]. cbn [bp_idx].
+    assert (Hlt : len done <? len (done ++ x :: t) = true).
+    { apply N.ltb_lt. rewrite len_app. unfold len. cbn [length]. lia. }
+    rewrite Hlt. rewrite BOUND_val in Hb. rewrite len_app in Hb.
+    assert (Hdn : len done < 72057594037927936) by lia.
+    unfold oand.
+    rewrite cmul_ok by (rewrite U64_val; lia). rewrite cadd_ok by (rewrite U64_val; lia). cbn [of_opt obind].
+    rewrite cadd_ok by (rewrite U64_val; lia). rewrite cmul_ok by (rewrite U64_val; lia).
+    rewrite cadd_ok by (rewrite U64_val; lia). cbn [of_opt obind].
+    inversion Hu as [|? ? Hx Ht]; subst.
+    assert (G : get (pre ++ flat_map enc64 (done ++ x :: t) ++ post) (len done * 8 + len pre) ((len done + 1) * 8 + len pre) = Some (enc64 x)).
+    { rewrite flat_map_app. cbn [flat_map]. rewrite <- !app_assoc.
+      rewrite (app_assoc pre). apply get_mid'.
+      - rewrite len_app, flat_enc64_len. lia.
+      - rewrite enc64_len. lia. }
+    rewrite G. cbn [of_opt obind]. rewrite be64_enc64 by assumption.
+    replace (done ++ x :: t) with ((done ++ [x]) ++ t) by (rewrite <- app_assoc; reflexivity).
+    replace (len done + 1) with (len (done ++ [x])) by (rewrite len_app; reflexivity).
+    rewrite IH.
+    + cbn [rev]. rewrite <- app_assoc. reflexivity.
+    + assumption.
+    + cbn [length] in Hf. lia.
+    + rewrite BOUND_val. rewrite !len_app in *. unfold len in *. cbn [length] in *. lia.
+Qed.
+
+Definition bpath_ok (b : bpath) : Prop :=
+  hashes (bp_values b) /\ len (bp_values b) < BOUND /\ u64s (bp_indices b) /\ len (bp_indices b) < BOUND.
+
+Lemma bpath_roundtrip b : bpath_ok b -> p_bpath_legacy (e_bpath b) = Val b.
+Proof.
+  intros [Hh [Hbv [Hu Hbi]]]. unfold p_bpath_legacy, e_bpath.
+  set (vs := bp_values b) in *. set (ix := bp_indices b) in *.
+  pose proof Hbv as Hbv'. pose proof Hbi as Hbi'. rewrite BOUND_val in Hbv', Hbi'.
+  rewrite (get_app_l _ _ 8) by apply enc64_len. cbn [of_opt obind].
+  rewrite (get_skip _ _ 8 0 8) by (try apply enc64_len; reflexivity).
+  rewrite (get_app_l _ _ 8) by apply enc64_len. cbn [of_opt obind].
+  rewrite !be64_enc64 by (rewrite U64_val; lia).
+  set (bs := enc64 (len vs) ++ enc64 (len ix) ++ concat vs ++ flat_map enc64 ix).
+  assert (Hlen : length bs = (16 + 32 * length vs + 8 * length ix)%nat).
+  { unfold bs. rewrite !app_length.
+    pose proof (enc64_len (len vs)) as E1. pose proof (enc64_len (len ix)) as E2.
+    pose proof (flat_enc64_len ix) as E3. pose proof (concat_hash_len vs Hh) as E4. unfold len in *. lia. }
+  assert (Hpre : len (enc64 (len vs) ++ enc64 (len ix)) = 16) by (rewrite len_app, !enc64_len; reflexivity).
+  pose proof (bp_vals_enc (enc64 (len vs) ++ enc64 (len ix)) (flat_map enc64 ix) Hpre vs (S (length bs)) [] []) as L.
+  cbn [app rev] in L. change (len (@nil bytes)) with 0 in L.
+  rewrite <- app_assoc in L. fold bs in L.
+  rewrite L; [|constructor|assumption|rewrite Hlen; lia|assumption]. cbn [obind].
+  unfold HASH, oand. rewrite cmul_ok by (rewrite U64_val; lia). rewrite cadd_ok by (rewrite U64_val; lia).
+  cbn [of_opt obind].
+  assert (Hpre2 : len ((enc64 (len vs) ++ enc64 (len ix)) ++ concat vs) = len vs * 32 + 16).
+  { rewrite len_app, Hpre, concat_hash_len by assumption. lia. }
+  pose proof (bp_idx_enc ((enc64 (len vs) ++ enc64 (len ix)) ++ concat vs) [] _ Hpre2) as L2.
+  specialize (L2 ltac:(rewrite BOUND_val; lia) ix (S (length bs)) [] []).
+  cbn [app rev] in L2. change (len (@nil N)) with 0 in L2. rewrite app_nil_r in L2.
+  rewrite <- !app_assoc in L2. fold bs in L2.
+  rewrite L2; [|assumption|rewrite Hlen; lia|assumption]. cbn [obind].
+  subst vs ix. destruct b; reflexivity.
+Qed.
+
+(* ---------- the version dispatch on legacy encodings ---------- *)
+Lemma versioned_not1 {A} b t (f : bytes -> out A) : b <> 1 -> versioned (b :: t) f = f (b :: t).
+Proof. intros H. unfold versioned. destruct b as [|p]; [reflexivity|]. destruct p; try reflexivity. congruence. Qed.
+Lemma versioned_app_not1 {A} b t l (f : bytes -> out A) : b <> 1 -> versioned ((b :: t) ++ l) f = f ((b :: t) ++ l).
+Proof. intros H. cbn [app]. apply versioned_not1, H. Qed.
+Lemma enc_be_hd0 k : forall n, n < 256 ^ N.of_nat k -> enc_be (S k) n = 0 :: enc_be k n.
+Proof.
+  induction k as [|k IH]; intros n H.
+  - cbn in H. assert (n = 0) by lia. subst. reflexivity.
+  - change (enc_be (S (S k)) n) with (enc_be (S k) (n / 256) ++ [n mod 256]).
+    rewrite IH.
+    + reflexivity.
+    + rewrite Nat2N.inj_succ, N.pow_succ_r' in H. apply N.div_lt_upper_bound; lia.
+Qed.
+Lemma enc64_hd0 n : n < BOUND -> exists t, enc64 n = 0 :: t.
+Proof.
+  rewrite BOUND_val. intros H. unfold enc64. rewrite enc_be_hd0.
+  - eauto.
+  - change (256 ^ N.of_nat 7) with 72057594037927936. assumption.
+Qed.
+Lemma versioned_enc64 {A} n r (f : bytes -> out A) : n < BOUND -> versioned (enc64 n ++ r) f = f (enc64 n ++ r).
+Proof. intros H. destruct (enc64_hd0 n H) as [t ->]. cbn [app]. apply versioned_not1. discriminate. Qed.
+
+(* ---------- aggregate verification key ---------- *)
+Definition avk_ok (a : avk) : Prop := bc_nr (av_c a) < BOUND /\ av_stake a < U64.
+Lemma avk_roundtrip a : avk_ok a -> p_avk (e_avk a) = Val a.
+Proof.
+  intros [Hn Hs]. unfold p_avk, e_avk, e_bcommit. rewrite <- app_assoc.
+  rewrite versioned_enc64 by assumption.
+  unfold p_avk_legacy.
+  set (c := av_c a) in *.
+  assert (Hlen : len (enc64 (bc_nr c) ++ bc_root c ++ enc64 (av_stake a)) = 8 + len (bc_root c) + 8).
+  { rewrite !len_app, !enc64_len. lia. }
+  rewrite Hlen.
+  replace (8 <=? 8 + len (bc_root c) + 8) with true by (symmetry; apply N.leb_le; lia).
+  cbn [of_opt obind]. replace (8 + len (bc_root c) + 8 - 8) with (8 + len (bc_root c)) by lia.
+  rewrite (app_assoc (enc64 (bc_nr c))).
+  rewrite (get_from_skip _ _ (8 + len (bc_root c))) by (rewrite len_app, enc64_len; reflexivity).
+  cbn [of_opt obind].
+  rewrite (get_app_l _ _ (8 + len (bc_root c))) by (rewrite len_app, enc64_len; reflexivity).
+  cbn [of_opt obind].
+  unfold p_bcommit. rewrite versioned_enc64 by assumption.
+  fold (e_bcommit c). rewrite bcommit_roundtrip by (rewrite BOUND_val, U64_val in *; lia). cbn [obind].
+  rewrite be64_enc64 by assumption. subst c. destruct a; reflexivity.
+Qed.
+
+(* ---------- SingleSignatureWithRegisteredParty ---------- *)
+Lemma e_reg_len r : len (rg_vk r) = 96 -> len (e_reg r) = 104.
+Proof. intros H. unfold e_reg. rewrite len_app, enc64_len, H. reflexivity. Qed.
+Lemma e_ssig_len s : len (ss_sigma s) = 48 -> len (e_ssig s) = 64 + 8 * len (ss_indexes s).
+Proof. intros H. unfold e_ssig. rewrite !len_app, !enc64_len, flat_enc64_len, H. lia. Qed.
+
+Definition sigreg_ok (V : oracle) (x : sigreg) : Prop :=
+  ssig_ok V (sr_sig x) /\ reg_ok V (sr_reg x) /\ (exists b t, rg_vk (sr_reg x) = b :: t /\ b <> 1).
+
+Lemma sigreg_roundtrip md V x : sigreg_ok V x -> p_sigreg_legacy md V (e_sigreg x) = Val x.
+Proof.
+  intros [Hs [Hr [b [t [Hvk Hb]]]]]. unfold p_sigreg_legacy, e_sigreg.
+  set (r := e_reg (sr_reg x)). set (s := e_ssig (sr_sig x)).
+  assert (Lr : len r = 104) by (apply e_reg_len; apply Hr).
+  assert (Ls : len s = 64 + 8 * len (ss_indexes (sr_sig x))) by (apply e_ssig_len; apply Hs).
+  assert (Hbi : len (ss_indexes (sr_sig x)) < 72057594037927936) by (destruct Hs as [_ [H _]]; rewrite BOUND_val in H; exact H).
+  rewrite (get_app_l _ _ 8) by apply enc64_len. cbn [of_opt obind].
+  rewrite be64_enc64 by (rewrite U64_val; lia).
+  unfold cadd at 1. replace (8 + len r <? U64) with true by (symmetry; apply N.ltb_lt; rewrite U64_val; lia).
+  cbn [of_opt obind].
+  rewrite (get_mid' (enc64 (len r)) r (enc64 (len s) ++ s) 8 (8 + len r)) by (try apply enc64_len; reflexivity).
+  cbn [of_opt obind].
+  assert (Pr : p_reg V r = Val (sr_reg x)).
+  { unfold p_reg, r, e_reg. rewrite Hvk. rewrite versioned_app_not1 by assumption.
+    rewrite <- Hvk. apply reg_roundtrip, Hr. }
+  rewrite Pr. cbn [obind].
+  rewrite madd_ok by (rewrite U64_val; lia). cbn [of_res obind].
+  rewrite (app_assoc (enc64 (len r)) r).
+  rewrite (get_mid' (enc64 (len r) ++ r) (enc64 (len s)) s (8 + len r) (8 + len r + 8))
+    by (rewrite ?len_app, ?enc64_len; reflexivity).
+  cbn [of_opt obind]. rewrite be64_enc64 by (rewrite U64_val; lia).
+  unfold cadd. replace (8 + len r + 8 + len s <? U64) with true by (symmetry; apply N.ltb_lt; rewrite U64_val; lia).
+  cbn [of_opt obind].
+  rewrite (app_assoc (enc64 (len r) ++ r)). rewrite <- (app_nil_r s) at 2.
+  rewrite (get_mid' ((enc64 (len r) ++ r) ++ enc64 (len s)) s [] (8 + len r + 8) (8 + len r + 8 + len s))
+    by (rewrite ?len_app, ?enc64_len; reflexivity).
+  cbn [of_opt obind].
+  assert (Ps : p_ssig md V s = Val (sr_sig x)).
+  { unfold p_ssig, s, e_ssig. rewrite versioned_enc64 by (rewrite BOUND_val; lia).
+    apply ssig_roundtrip, Hs. }
+  rewrite Ps. cbn [obind]. destruct x; reflexivity.
+Qed.
+
+(* ---------- ConcatenationProof, AggregateSignature ---------- *)
+Definition sr_frame (x : sigreg) : bytes := enc64 (len (e_sigreg x)) ++ e_sigreg x.
+Lemma e_cproof_frames p : e_cproof p = enc64 (len (cp_sigs p)) ++ flat_map sr_frame (cp_sigs p) ++ e_bpath (cp_bp p).
+Proof. reflexivity. Qed.
+Lemma e_sigreg_hd0 V x : sigreg_ok V x -> exists t, e_sigreg x = 0 :: t.
+Proof.
+  intros [_ [Hr _]]. unfold e_sigreg.
+  destruct (enc64_hd0 (len (e_reg (sr_reg x)))) as [t Ht].
+  - rewrite e_reg_len by apply Hr. rewrite BOUND_val. lia.
+  - rewrite Ht. cbn [app]. eauto.
+Qed.
+Lemma p_sigreg_enc md V x : sigreg_ok V x -> p_sigreg md V (e_sigreg x) = Val x.
+Proof.
+  intros H. unfold p_sigreg. destruct (e_sigreg_hd0 V x H) as [t Ht]. rewrite Ht.
+  rewrite versioned_not1 by discriminate. rewrite <- Ht. apply sigreg_roundtrip, H.
+Qed.
+
+Lemma cp_loop_enc md V post : forall todo fuel pre k n acc,
+  Forall (sigreg_ok V) todo -> (length todo < fuel)%nat ->
+  len pre + len (flat_map sr_frame todo) < BOUND -> n = k + len todo ->
+  cp_loop md V fuel (pre ++ flat_map sr_frame todo ++ post) k n (len pre) acc
+  = Val (rev acc ++ todo, len pre + len (flat_map sr_frame todo)).
+Proof.
+  induction todo as [|x t IH]; intros fuel pre k n acc Hok Hf Hb Hn.
+  - destruct fuel as [|f]; [cbn in Hf; lia|]. cbn [cp_loop]. subst n. change (len (@nil sigreg)) with 0.
+    rewrite N.add_0_r, N.ltb_irrefl. cbn [flat_map]. change (len (@nil N)) with 0.
+    rewrite N.add_0_r, app_nil_r. reflexivity.
+  - destruct fuel as [|f]; [cbn in Hf; lia|]. cbn [cp_loop].
+    assert (Hlt : k <? n = true).
+    { apply N.ltb_lt. subst n. unfold len. cbn [length]. lia. }
+    rewrite Hlt. cbn [flat_map] in *. rewrite BOUND_val in Hb. unfold sr_frame at 1 in Hb.
+    rewrite !len_app, enc64_len in Hb.
+    set (E := e_sigreg x) in *.
+    rewrite madd_ok by (rewrite U64_val; lia). cbn [of_res obind].
+    change (sr_frame x) with (enc64 (len E) ++ E). rewrite <- !app_assoc.
+    rewrite (get_mid' pre (enc64 (len E)) (E ++ flat_map sr_frame t ++ post) (len pre) (len pre + 8))
+      by (rewrite ?enc64_len; reflexivity).
+    cbn [of_opt obind]. rewrite be64_enc64 by (rewrite U64_val; lia).
+    unfold cadd. replace (len pre + 8 + len E <? U64) with true by (symmetry; apply N.ltb_lt; rewrite U64_val; lia).
+    cbn [of_opt obind].
+    rewrite (app_assoc pre (enc64 (len E))).
+    rewrite (get_mid' (pre ++ enc64 (len E)) E (flat_map sr_frame t ++ post) (len pre + 8) (len pre + 8 + len E))
+      by (rewrite ?len_app, ?enc64_len; reflexivity).
+    cbn [of_opt obind].
+    inversion Hok as [|? ? Hx Ht]; subst.
+    unfold E at 1. rewrite p_sigreg_enc by assumption. cbn [obind].
+    rewrite (app_assoc (pre ++ enc64 (len E)) E).
+    replace (len pre + 8 + len E) with (len ((pre ++ enc64 (len E)) ++ E)) by (rewrite !len_app, enc64_len; reflexivity).
+    rewrite IH.
+    + cbn [rev]. rewrite <- app_assoc. cbn [app]. f_equal. f_equal.
+      rewrite !len_app, enc64_len. lia.
+    + assumption.
+    + cbn [length] in Hf. lia.
+    + rewrite BOUND_val, !len_app, enc64_len. lia.
+    + unfold len. cbn [length]. lia.
+Qed.
+
+Definition cproof_ok (V : oracle) (p : cproof) : Prop :=
+  Forall (sigreg_ok V) (cp_sigs p) /\ len (cp_sigs p) < BOUND /\ bpath_ok (cp_bp p) /\ small (e_cproof p).
+
+Lemma alloc_ok_small bs total : small bs -> alloc_ok (cp_capacity bs total) SIGREG_SIZE = Val tt.
+Proof.
+  intros Hs. unfold alloc_ok. pose proof (cp_capacity_le bs total) as Hc.
+  replace (cp_capacity bs total * SIGREG_SIZE <=? ISIZE_MAX) with true; [reflexivity|].
+  symmetry. apply N.leb_le. unfold small in Hs. rewrite BOUND_val in Hs. rewrite ISIZE_val. lia.
+Qed.
+
+Lemma cproof_roundtrip md V p : cproof_ok V p -> p_cproof_legacy md V (e_cproof p) = Val p.
+Proof.
+  intros [Hs [Hn [Hbp Hsm]]]. unfold p_cproof_legacy.
+  rewrite e_cproof_frames in *.
+  set (sigs := cp_sigs p) in *. set (B := e_bpath (cp_bp p)) in *.
+  rewrite (get_app_l _ _ 8) by apply enc64_len. cbn [of_opt obind]. cbv zeta.
+  rewrite alloc_ok_small by assumption. cbn [obind].
+  rewrite be64_enc64 by (rewrite BOUND_val in Hn; rewrite U64_val; lia).
+  unfold small in Hsm. rewrite !len_app, enc64_len in Hsm.
+  pose proof (cp_loop_enc md V B sigs (S (length (enc64 (len sigs) ++ flat_map sr_frame sigs ++ B)))
+                (enc64 (len sigs)) 0 (len sigs) []) as L.
+  rewrite enc64_len in L. cbn [rev app] in L.
+  rewrite L; [|assumption| |lia|lia].
+  2:{ rewrite !app_length.
+      assert (length sigs <= length (flat_map sr_frame sigs))%nat.
+      { clear. induction sigs as [|x r IH]; [cbn; lia|]. cbn [flat_map length]. rewrite app_length.
+        unfold sr_frame at 1. rewrite app_length.
+        pose proof (enc64_len (len (e_sigreg x))) as E. unfold len in *. lia. }
+      lia. }
+  cbn [obind snd fst].
+  rewrite (app_assoc (enc64 (len sigs))).
+  rewrite (get_from_skip _ _ (8 + len (flat_map sr_frame sigs))) by (rewrite len_app, enc64_len; reflexivity).
+  cbn [of_opt obind].
+  assert (Pb : p_bpath B = Val (cp_bp p)).
+  { unfold p_bpath, B, e_bpath. rewrite versioned_enc64 by apply Hbp. apply bpath_roundtrip, Hbp. }
+  rewrite Pb. cbn [obind]. subst sigs. destruct p; reflexivity.
+Qed.
+
+Theorem aggr_roundtrip md V p : cproof_ok V p -> p_aggr md V (e_aggr p) = Val p.
+Proof.
+  intros H. unfold p_aggr, e_aggr, p_aggr_legacy. cbn [N.eqb].
+  unfold p_cproof. rewrite e_cproof_frames.
+  rewrite versioned_enc64 by apply H. rewrite <- e_cproof_frames. apply cproof_roundtrip, H.
+Qed.
+
+(* ---------- key with proof of possession, Initializer ---------- *)
+Definition vkpop_ok (V : oracle) (k : vkpop) : Prop :=
+  len (vp_vk k) = 96 /\ V 1 (vp_vk k) = true /\ len (vp_k1 k) = 48 /\ V 3 (vp_k1 k) = true /\ len (vp_k2 k) = 48.
+Lemma vkpop_roundtrip V k : vkpop_ok V k -> p_vkpop V (e_vkpop k) = Val k.
+Proof.
+  intros [L1 [V1 [L2 [V2 L3]]]]. unfold p_vkpop, e_vkpop.
+  rewrite (get_app_l _ _ 96) by assumption. cbn [of_opt obind].
+  unfold p_vk. rewrite (get_whole _ 96) by assumption. cbn [of_opt obind]. rewrite V1. cbn [obind].
+  rewrite (get_from_skip _ _ 96) by assumption. cbn [of_opt obind].
+  rewrite (get_app_l _ _ 48) by assumption. cbn [of_opt obind]. rewrite V2.
+  rewrite (get_skip _ _ 48 0 48) by (try assumption; reflexivity).
+  rewrite (get_whole _ 48) by assumption. cbn [of_opt obind]. destruct k; reflexivity.
+Qed.
+Lemma e_params_len p : len (e_params p) = 24.
+Proof. unfold e_params. rewrite !len_app, !enc64_len. reflexivity. Qed.
+Lemma e_vkpop_len V k : vkpop_ok V k -> len (e_vkpop k) = 192.
+Proof. intros [L1 [_ [L2 [_ L3]]]]. unfold e_vkpop. rewrite !len_app, L1, L2, L3. reflexivity. Qed.
+
+Definition init_ok (V : oracle) (i : init) : Prop :=
+  in_stake i < U64 /\ params_ok (in_params i) /\ p_m (in_params i) < BOUND /\
+  len (in_sk i) = 32 /\ V 2 (in_sk i) = true /\ vkpop_ok V (in_pk i).
+Lemma init_roundtrip V i : init_ok V i -> p_init_legacy V (e_init i) = Val i.
+Proof.
+  intros [Hs [Hp [Hm [Lk [Vk Hv]]]]]. unfold p_init_legacy, e_init.
+  rewrite (get_app_l _ _ 8) by apply enc64_len. cbn [of_opt obind].
+  rewrite (get_mid' (enc64 (in_stake i)) (e_params (in_params i)) _ 8 32)
+    by (rewrite ?enc64_len, ?e_params_len; reflexivity).
+  cbn [of_opt obind].
+  assert (Pp : p_params (e_params (in_params i)) = Val (in_params i)).
+  { unfold p_params, e_params. rewrite versioned_enc64 by assumption. apply params_roundtrip, Hp. }
+  rewrite Pp. cbn [obind].
+  rewrite (app_assoc (enc64 (in_stake i))).
+  rewrite (get_mid' (enc64 (in_stake i) ++ e_params (in_params i)) (in_sk i) _ 32 64)
+    by (rewrite ?len_app, ?enc64_len, ?e_params_len, ?Lk; reflexivity).
+  cbn [of_opt obind].
+  unfold p_sk. rewrite (get_whole _ 32) by assumption. cbn [of_opt obind]. rewrite Vk. cbn [obind].
+  rewrite (app_assoc (enc64 (in_stake i) ++ e_params (in_params i))).
+  rewrite <- (app_nil_r (e_vkpop (in_pk i))).
+  rewrite (get_mid' ((enc64 (in_stake i) ++ e_params (in_params i)) ++ in_sk i) (e_vkpop (in_pk i)) [] 64 256)
+    by (rewrite ?len_app, ?enc64_len, ?e_params_len, ?Lk, ?(e_vkpop_len V) by assumption; reflexivity).
+  cbn [of_opt obind]. rewrite vkpop_roundtrip by assumption. cbn [obind].
+  rewrite be64_enc64 by assumption. destruct i; reflexivity.
+Qed.
+
+(* ---------- MerkleTree ---------- *)
+Lemma mt_loop_enc md pre post : len pre = 8 ->
+  forall todo fuel done acc,
+  hashes done -> hashes todo -> (length todo < fuel)%nat -> len (done ++ todo) < BOUND ->
+  mt_loop md fuel (pre ++ concat (done ++ todo) ++ post) (len done) (len (done ++ todo)) acc
+  = Val (rev acc ++ todo).
+Proof.
+  intros Hpre. induction todo as [|x t IH]; intros fuel done acc Hd Hu Hf Hb.
+  - destruct fuel as [|f]; [cbn in Hf; lia|]. cbn [mt_loop]. rewrite app_nil_r.
+    rewrite N.ltb_irrefl. rewrite app_nil_r. reflexivity.
+  - destruct fuel as [|f]; [cbn in Hf; lia|]. cbn [mt_loop].
+    assert (Hlt : len done <? len (done ++ x :: t) = true).
+    { apply N.ltb_lt. rewrite len_app. unfold len. cbn [length]. lia. }
+    rewrite Hlt. rewrite BOUND_val in Hb. rewrite len_app in Hb.
+    assert (Hdn : len done < 72057594037927936) by lia.
+    unfold HASH.
+    rewrite mmul_ok by (rewrite U64_val; lia). cbn [of_res obind].
+    rewrite madd_ok by (rewrite U64_val; lia). cbn [of_res obind].
+    rewrite madd_ok by (rewrite U64_val; lia). cbn [of_res obind].
+    rewrite mmul_ok by (rewrite U64_val; lia). cbn [of_res obind].
+    rewrite madd_ok by (rewrite U64_val; lia). cbn [of_res obind].
+    inversion Hu as [|? ? Hx Ht]; subst.
+    assert (G : get (pre ++ concat (done ++ x :: t) ++ post) (8 + len done * 32) (8 + (len done + 1) * 32) = Some x).
+    { rewrite concat_app. cbn [concat]. rewrite <- !app_assoc.
+      rewrite (app_assoc pre). apply get_mid'.
+      - rewrite len_app, concat_hash_len by assumption. lia.
+      - rewrite Hx. lia. }
+    rewrite G. cbn [of_opt obind].
+    replace (done ++ x :: t) with ((done ++ [x]) ++ t) by (rewrite <- app_assoc; reflexivity).
+    replace (len done + 1) with (len (done ++ [x])) by (rewrite len_app; reflexivity).
+    rewrite IH.
+    + cbn [rev]. rewrite <- app_assoc. reflexivity.
+    + apply hashes_app; [assumption|]. constructor; [assumption|constructor].
+    + assumption.
+    + cbn [length] in Hf. lia.
+    + rewrite BOUND_val. rewrite !len_app in *. unfold len in *. cbn [length] in *. lia.
+Qed.
+
+(* a well-formed tree: n leaves, n + next_power_of_two(n) - 1 nodes of 32 bytes, leaves at the end *)
+Definition mtree_ok (t : mtree) : Prop :=
+  hashes (mt_nodes t) /\ len (mt_nodes t) < BOUND /\ mt_n t < BOUND /\
+  len (mt_nodes t) + 1 = mt_n t + npow2 (mt_n t) /\ mt_off t + mt_n t = len (mt_nodes t) /\ small (e_mtree t).
+Lemma mtree_roundtrip md t : mtree_ok t -> p_mtree_legacy md (e_mtree t) = Val t.
+Proof.
+  intros [Hh [Hb [Hn [Hc [Ho Hsm]]]]]. unfold p_mtree_legacy, e_mtree in *.
+  set (nodes := mt_nodes t) in *. set (n := mt_n t) in *.
+  pose proof Hb as Hb'. pose proof Hn as Hn'. rewrite BOUND_val in Hb', Hn'.
+  rewrite (get_app_l _ _ 8) by apply enc64_len. cbn [of_opt obind]. cbv zeta.
+  rewrite be64_enc64 by (rewrite U64_val; lia).
+  pose proof (npow2_pos n) as Hp.
+  assert (Hnum : mt_num_nodes md n = Val (len nodes)).
+  { unfold mt_num_nodes, checked_npow2.
+    replace (npow2 n <? U64) with true by (symmetry; apply N.ltb_lt; rewrite U64_val; lia).
+    cbn [of_opt obind]. unfold cadd.
+    replace (n + npow2 n <? U64) with true by (symmetry; apply N.ltb_lt; rewrite U64_val; lia).
+    cbn [of_opt obind]. rewrite msub_ok by lia. cbn [of_res]. f_equal. lia. }
+  rewrite Hnum. cbn [obind].
+  set (bs := enc64 n ++ concat nodes).
+  assert (Hlen : length bs = (8 + 32 * length nodes)%nat).
+  { unfold bs. rewrite app_length. pose proof (enc64_len n) as E1.
+    pose proof (concat_hash_len nodes Hh) as E2. unfold len in *. lia. }
+  fold bs in Hsm.
+  unfold alloc_ok. pose proof (mt_capacity_le bs (len nodes)) as Hcap.
+  replace (mt_capacity bs (len nodes) * VEC_SIZE <=? ISIZE_MAX) with true.
+  2:{ symmetry. apply N.leb_le. unfold small in Hsm. rewrite BOUND_val in Hsm. rewrite ISIZE_val. lia. }
+  cbn [obind].
+  pose proof (mt_loop_enc md (enc64 n) [] (enc64_len n) nodes (S (length bs)) [] []) as L.
+  cbn [app rev] in L. change (len (@nil bytes)) with 0 in L. rewrite app_nil_r in L. fold bs in L.
+  rewrite L; [|constructor|assumption|rewrite Hlen; lia|assumption]. cbn [obind].
+  rewrite msub_ok by lia. cbn [of_res obind].
+  replace (len nodes - n) with (mt_off t) by lia.
+  subst nodes n. destruct t; reflexivity.
+Qed.
+
+(* ---------- a concrete honest aggregate signature (non-vacuity of cproof_ok) ---------- *)
+Definition ex_vk := repeat 200 96.
+Definition ex_sigma := repeat 200 48.
+Definition ex_V := mkV [(0, ex_sigma); (1, ex_vk)].
+Definition ex_sr := {| sr_sig := {| ss_indexes := [1; 4; 5]; ss_sigma := ex_sigma; ss_signer := 2 |};
+                       sr_reg := {| rg_vk := ex_vk; rg_stake := 77 |} |}.
+Definition ex_proof := {| cp_sigs := [ex_sr; ex_sr]; cp_bp := {| bp_values := [repeat 7 32]; bp_indices := [0; 2] |} |}.
+Ltac lt_by_compute := (rewrite ?BOUND_val, ?U64_val; vm_compute; reflexivity).
+Lemma ex_sr_ok : sigreg_ok ex_V ex_sr.
+Proof.
+  split; [|split].
+  - unfold ssig_ok, u64s. cbn [ex_sr sr_sig ss_indexes ss_sigma ss_signer].
+    split; [|split; [|split; [|split]]].
+    + constructor; [lt_by_compute|constructor; [lt_by_compute|constructor; [lt_by_compute|constructor]]].
+    + lt_by_compute.
+    + vm_compute; reflexivity.
+    + vm_compute; reflexivity.
+    + lt_by_compute.
+  - unfold reg_ok. cbn [ex_sr sr_reg rg_vk rg_stake].
+    split; [vm_compute; reflexivity|split; [vm_compute; reflexivity|lt_by_compute]].
+  - exists 200, (repeat 200 95). split; [reflexivity|discriminate].
+Qed.
